@@ -111,6 +111,7 @@ def templates():
     T["return:value"] = ("def f():\n    for x in probe(0, [a, b]):\n        if probe(1, x == b):\n            return probe(2, x)\n    return probe(3, -1)\nlog(f())\n", AB, "True")
     T["expr:stmt"] = ("probe(0, ident)(probe(1, a), *probe(2, [b]), k=probe(3, a), **probe(4, {'z': b}))\nlog(probe(5, ident)(probe(6, a)))\n", AB, "True")
     T["expr:call_order"] = ("log(probe(0, ident)(probe(1, a), *probe(2, [b]), k=probe(3, a), **probe(4, {'z': b})))\n", AB, "True")
+    T["expr:call_order_dstar_first"] = ("log(probe(0, ident)(probe(1, a), **probe(2, {'z': b}), k=probe(3, a), **probe(4, {'y': b}), m=probe(5, 0)))\nclass MK(type):\n    def __new__(m, n, bs, ns, **kw):\n        c = super().__new__(m, n, bs, ns)\n        c.kw = list(kw)\n        return c\n    def __init__(c, n, bs, ns, **kw):\n        super().__init__(n, bs, ns)\nclass CK(metaclass=MK, **probe(6, {'p': 1}), q=probe(7, 2)):\n    pass\nlog(CK.kw)\n", AB, "True")
     T["expr:comp"] = ("log([probe(0, x) for x in probe(1, [a, b, a]) if probe(2, x != b)])\nlog({probe(3, x): probe(4, a) for x in probe(5, [a, b])})\n", AB, "True")
     T["expr:ifexp_boolop"] = ("log(probe(0, a) if probe(1, a > b) else probe(2, b))\nlog(probe(3, a) and probe(4, b) or probe(5, 7))\nlog(probe(6, a) < probe(7, b) < probe(8, 10))\n", AB, "True")
     # (concrete values: CrossHair cannot format a symbolic int with a computed format spec; the
